@@ -22,6 +22,12 @@
 //!   en <K> <i>                    enable (K = P T W R)                          -> e 0 | e E<n>
 //!   h <K> <i>                     get_instance_handle of the proxy              -> h <hex>
 //!   st <W|R> <i>                  matched status (only the return code)         -> st 0 | st E<n>
+//!   keepnet                       from now on the in-flight datagrams are kept (discovery works)          -> k
+//!   settle                        deliver all datagrams and advance time (6 x 100 ms)                     -> n
+//!   mpd <r> <w>                   reader r: get_matched_publication_data(handle of writer w)              -> m <19 ints> | m E<n>
+//!                                 (dur dl lat lk ll rel mbt ls ud own str ord sc coh oa part td gd rep)
+//!   msd <w> <r>                   writer w: get_matched_subscription_data(handle of reader r)             -> m <18 ints> | m E<n>
+//!                                 (dur dl lat lk ll rel mbt own ord ud sep sc coh oa part td gd rep)
 //!   burnPUB <p> <n> | burnSUB <p> <n> | burnT <p> <n> | burnW <pub> <topic> <n> | burnR <sub> <topic> <n>
 //!                                 n times: create with default QoS, then delete -> b <iterations done> <code of the first failure or 0>
 //!
@@ -411,6 +417,7 @@ struct World {
     subs: Vec<SubscriberAsync>,
     writers: Vec<DataWriterAsync<KeyedData>>,
     readers: Vec<DataReaderAsync<KeyedData>>,
+    keepnet: bool,
 }
 
 const BUDGET: i64 = 2_000_000_000;
@@ -752,6 +759,61 @@ impl World {
                 self.sim.settle();
                 format!("st {}", code(r))
             }
+            "keepnet" => {
+                self.keepnet = true;
+                "k".into()
+            }
+            "settle" => {
+                // let discovery finish: deliver everything, let time pass, several rounds
+                for _ in 0..6 {
+                    self.sim.pump(100_000, &mut |_| 0);
+                    self.sim.advance(100_000_000);
+                }
+                self.sim.pump(100_000, &mut |_| 0);
+                "n".into()
+            }
+            "mpd" => {
+                let rd = get!(self.readers, u(1));
+                let w = get!(self.writers, u(2));
+                let r = self.sim.run(rd.get_matched_publication_data(w.get_instance_handle()), BUDGET);
+                self.sim.settle();
+                match r {
+                    Ok(Ok(d)) => format!(
+                        "m {} {} {} {} {} {} {} {} {} {} {} {} {} {} {} {} {} {} {}",
+                        dur_out(&d.durability().kind), dk_out(&d.deadline().period), dk_out(&d.latency_budget().duration),
+                        lk_out(&d.liveliness().kind), dk_out(&d.liveliness().lease_duration), rel_out(&d.reliability().kind),
+                        dk_out(&d.reliability().max_blocking_time), dk_out(&d.lifespan().duration),
+                        bytes_out(&d.user_data().value), own_out(&d.ownership().kind), d.ownership_strength().value,
+                        ord_out(&d.destination_order().kind), scope_out(&d.presentation().access_scope),
+                        d.presentation().coherent_access as i64, d.presentation().ordered_access as i64,
+                        part_out(&d.partition().name), bytes_out(&d.topic_data().value), bytes_out(&d.group_data().value),
+                        rep_out(&d.representation().value)
+                    ),
+                    Ok(Err(e)) => format!("m E{}", err_code(&e)),
+                    Err(_) => "m STUCK".into(),
+                }
+            }
+            "msd" => {
+                let w = get!(self.writers, u(1));
+                let rd = get!(self.readers, u(2));
+                let r = self.sim.run(w.get_matched_subscription_data(rd.get_instance_handle()), BUDGET);
+                self.sim.settle();
+                match r {
+                    Ok(Ok(d)) => format!(
+                        "m {} {} {} {} {} {} {} {} {} {} {} {} {} {} {} {} {} {}",
+                        dur_out(&d.durability().kind), dk_out(&d.deadline().period), dk_out(&d.latency_budget().duration),
+                        lk_out(&d.liveliness().kind), dk_out(&d.liveliness().lease_duration), rel_out(&d.reliability().kind),
+                        dk_out(&d.reliability().max_blocking_time), own_out(&d.ownership().kind),
+                        ord_out(&d.destination_order().kind), bytes_out(&d.user_data().value),
+                        dk_out(&d.time_based_filter().minimum_separation), scope_out(&d.presentation().access_scope),
+                        d.presentation().coherent_access as i64, d.presentation().ordered_access as i64,
+                        part_out(&d.partition().name), bytes_out(&d.topic_data().value), bytes_out(&d.group_data().value),
+                        rep_out(&d.representation().value)
+                    ),
+                    Ok(Err(e)) => format!("m E{}", err_code(&e)),
+                    Err(_) => "m STUCK".into(),
+                }
+            }
             "burnPUB" | "burnSUB" | "burnT" => {
                 let p = get!(self.parts, u(1));
                 let total = n(2);
@@ -843,6 +905,7 @@ fn run_scenario(line: &str) {
         subs: vec![],
         writers: vec![],
         readers: vec![],
+        keepnet: false,
     };
     let stdout = std::io::stdout();
     for op in line.split(';') {
@@ -854,8 +917,10 @@ fn run_scenario(line: &str) {
         let mut o = stdout.lock();
         writeln!(o, "{}", r).unwrap();
         o.flush().unwrap();
-        // the discovery traffic is not part of these properties: keep the queues short
-        w.sim.shared.inflight.lock().unwrap().clear();
+        // the discovery traffic is not part of these properties (unless `keepnet`): keep the queues short
+        if !w.keepnet {
+            w.sim.shared.inflight.lock().unwrap().clear();
+        }
         w.sim.shared.sent_log.lock().unwrap().clear();
     }
 }
